@@ -718,7 +718,14 @@ def _job_from(nat, n, par, kids, times, types=None, order=None):
 def _gen_job(nat, rng, n):
     shapes = list(trees(nat, 5))
     for _ in range(n):
-        k, par, kids = rng.choice(shapes)
+        if rng.random() < 0.25:
+            # a larger random call tree (up to ~30 spans): the clauses the solver does not discharge (acyclic, descendants first,
+            # single start) are only ever decided at run time, so they should see more than the small shapes
+            k = rng.randrange(6, 31)
+            par = (None,) + tuple(rng.randrange(max(0, i - 6), i) for i in range(1, k))
+            kids = {i: [j for j in range(k) if par[j] == i] for i in range(k)}
+        else:
+            k, par, kids = rng.choice(shapes)
         starts = rng.sample(range(3 * k + 3), k)
         times = [(s, s + rng.randrange(0, 6)) for s in starts]
         types = [rng.choice("ABCD") for _ in range(k)]
